@@ -40,7 +40,7 @@ ASSUMPTIONS = [
     "struct.pack raises for out-of-range lengths; len(), tell() and the UKVRecord constructor do not fail",
     "the OS does not alter bytes below the offset a process writes at",
 ]
-FLOORS = {"C02.R12": 1, "C02.R10": 3, "C02.R11": 3, "C02.R9": 1, "C02.R7": 1, "C02.R1": 2, "C02.R2": 1, "C02.R3": 5, "C02.R4": 6, "C02.R5": 1, "C02.R6": 4}
+FLOORS = {"C02.R12": 1, "C02.R10": 3, "C02.R11": 1, "C02.R9": 1, "C02.R7": 1, "C02.R1": 2, "C02.R2": 1, "C02.R3": 5, "C02.R4": 6, "C02.R5": 1, "C02.R6": 4}
 
 STATE = {"self._toc[]", "self._eof", "self._last"}
 STREAM_WRITES = {"self._stream.write", "self._stream.truncate", "self._pack_write", "self._stream.writelines"}
@@ -87,7 +87,22 @@ def run(chk):
             if f is None or f.key in seen:
                 continue
             seen.add(f.key)
-            chk.borrow("C02.R11", c04.session, chk, f, kind, begin, end, only=lambda o: o["construct"].endswith(":order"))
+            # (a session written in a shape C04's rule does not read is C04's refusal; for this property the clause is an addition that must
+            # not take away the verdict the check gave before: noted)
+            from ..report import Check as _Check
+
+            sub = _Check(chk.prop, chk.prog, chk.tier)
+            sub.call(c04.session, sub, f, kind, begin, end)
+            if sub.refusals:
+                chk.note(f"C02.R11: {f.qualname} is written in a shape the session rule (C04.R3) does not read; no verdict here on the listing refresh at session start")
+                continue
+            for o in sub.obligations:
+                if o["construct"].endswith(":order"):
+                    o = dict(o)
+                    o["detail"] = f"[{o['rule']}] " + o["detail"]
+                    o["rule"] = "C02.R11"
+                    chk.obligations.append(o)
+            chk.functions |= sub.functions
     chk.borrow("C02.R11", c04.r8_listing_refresh, chk, classes)
 
 
